@@ -257,3 +257,43 @@ def _copies_of(f, x):
                     res.add(src)
                     changed = True
     return res - {None}
+
+
+def count_rule(ck, prog):
+    """COUNT (C02/C17): every loop of Air::get_constraint_composition_coefficients / get_deep_composition_coefficients that draws one
+    coefficient per item runs over `0..N` where N is the count itself (a getter's result, only converted): a loop that starts at 1, or
+    ends at N - 1, draws one coefficient too few on BOTH sides — prover and verifier take the number of constraints of that family from the
+    length of the vector, so the last constraint is silently dropped."""
+    ck.rule("COUNT", "coefficient-drawing loops run over 0..N with N the family's count itself")
+    n = 0
+    for name in ("get_constraint_composition_coefficients", "get_deep_composition_coefficients"):
+        f0 = prog.fn("winter_air::air::Air::" + name)
+        ck.saw(f0)
+        f = prog.inl(f0)
+        g = flow(f)
+        nexts = [(b, t) for b, t in f.calls() if (callee_name(t) or "").endswith("Iterator::next")]
+        for b, t in f.calls():
+            if not (callee_name(t) or "").endswith("Vec::push"):
+                continue
+            w = g.walk(ops=[t["args"][1]], at=(b, T))
+            if not any(x.endswith("RandomCoin::draw") for x in g.callee_names_in(w)):
+                continue
+            # the loop this push belongs to: the `next` call on a cycle with it
+            hdr = [(nb, nt) for nb, nt in nexts if (nb, S) in reach(f, [(b, T)], include_starts=False) and (b, S) in reach(f, [(nb, T)], include_starts=False)]
+            if len(hdr) != 1:
+                ck.note(f"COUNT: {name}: a drawing loop of an unrecognised shape; not decided")
+                continue
+            it = strip_conv(expr_at(f, hdr[0][1]["args"][0]))
+            while it[0] == "call" and it[1].endswith("IntoIterator::into_iter") and it[2]:
+                it = strip_conv(it[2][0])
+            if not (it[0] == "agg" and str(it[1]).endswith("range::Range") and len(it[2]) == 2):
+                ck.note(f"COUNT: {name}: a drawing loop that is not over a plain range; not decided")
+                continue
+            lo, hi = strip_conv(it[2][0]), strip_conv(it[2][1])
+            n += 1
+            count = hi[1].split("::")[-1] if hi[0] == "call" else "?"
+            good = lo == ("k", 0) and hi[0] == "call"
+            ck.ob("COUNT", f"{name}:{count}#{n}", good,
+                  f"Air::{name}: the loop drawing one coefficient per item runs over 0..{count}()", loc=f.loc(hdr[0][0], T),
+                  detail=None if good else {"range": f"{lo} .. {hi[:2]}"})
+    ck.floor("coefficient-drawing loops", n, 5)
